@@ -41,6 +41,19 @@ type zzvEnv struct {
 	deleteCalls  int
 	lastPhase    sev1alpha1.PodMigrationJobPhase
 	evictStamped bool
+
+	// history mode
+	tag      string                      // prefix of the lazily chosen inputs of the current reconcile
+	noFaults bool                        // every API call succeeds
+	stored   *sev1alpha1.PodMigrationJob // the job as last written successfully
+	fixNode  string                      // a reservation once seen scheduled stays on that node
+}
+
+func (e *zzvEnv) choice(name string, n int) int {
+	if e.noFaults && (name == "updateFails" || name == "statusUpdateFails" || name == "createFails" || name == "evictFails" || name == "deleteResult") {
+		return 0
+	}
+	return zzverif.Choice(e.tag+name, n)
 }
 
 var zzvE *zzvEnv
@@ -60,7 +73,7 @@ func (c *zzvClient) Get(ctx context.Context, key client.ObjectKey, obj client.Ob
 	}
 	if key.Name != "target" {
 		// the pod bound to the reservation (waitForPodReady)
-		switch zzverif.Choice("boundPod", 3) {
+		switch zzvE.choice("boundPod", 3) {
 		case 0:
 			return zzvNotFound("pods", key.Name)
 		case 1:
@@ -72,7 +85,7 @@ func (c *zzvClient) Get(ctx context.Context, key client.ObjectKey, obj client.Ob
 		return nil
 	}
 	if zzvE.pod == 0 {
-		zzvE.pod = 1 + zzverif.Choice("pod", 3)
+		zzvE.pod = 1 + zzvE.choice("pod", 3)
 	}
 	switch zzvE.pod {
 	case 2:
@@ -87,12 +100,13 @@ func (c *zzvClient) Get(ctx context.Context, key client.ObjectKey, obj client.Ob
 
 func (c *zzvClient) zzvWrite(obj client.Object, what string) error {
 	zzvE.writeTries++
-	if zzverif.Choice(what, 2) == 1 {
+	if zzvE.choice(what, 2) == 1 {
 		return errors.New("zzv: API write failed")
 	}
 	zzvE.writes++
 	if j, ok := obj.(*sev1alpha1.PodMigrationJob); ok {
 		zzvE.lastPhase = j.Status.Phase
+		zzvE.stored = j.DeepCopy()
 	}
 	return nil
 }
@@ -116,14 +130,14 @@ func (zzvReservations) GetReservationType() client.Object  { return &sev1alpha1.
 func (zzvReservations) Preemption() reservation.Preemption { return nil }
 func (zzvReservations) CreateReservation(ctx context.Context, job *sev1alpha1.PodMigrationJob) (reservation.Object, error) {
 	zzvE.createCalls++
-	if zzverif.Choice("createFails", 2) == 1 {
+	if zzvE.choice("createFails", 2) == 1 {
 		return nil, errors.New("zzv: create failed")
 	}
 	return reservation.NewReservation(&sev1alpha1.Reservation{ObjectMeta: metav1.ObjectMeta{Name: "resv", UID: "resv-uid"}}), nil
 }
 func (zzvReservations) DeleteReservation(ctx context.Context, ref *corev1.ObjectReference) error {
 	zzvE.deleteCalls++
-	switch zzverif.Choice("deleteResult", 3) {
+	switch zzvE.choice("deleteResult", 3) {
 	case 1:
 		return zzvNotFound("reservations", "resv")
 	case 2:
@@ -135,26 +149,29 @@ func (zzvReservations) GetReservation(ctx context.Context, ref *corev1.ObjectRef
 	e := zzvE
 	if !e.resKnown {
 		e.resKnown = true
-		if zzverif.Choice("reservationMissing", 2) == 1 {
+		if e.choice("reservationMissing", 2) == 1 {
 			e.resMissing = true
 		} else {
 			yes := true
 			r := &sev1alpha1.Reservation{ObjectMeta: metav1.ObjectMeta{Name: "resv", UID: "resv-uid", Labels: map[string]string{extension.LabelReservationOrder: "1"}}}
 			r.Spec.Owners = []sev1alpha1.ReservationOwner{{Controller: &sev1alpha1.ReservationControllerReference{OwnerReference: metav1.OwnerReference{Name: "w", Controller: &yes}}}}
-			r.Status.Phase = []sev1alpha1.ReservationPhase{sev1alpha1.ReservationPending, sev1alpha1.ReservationAvailable, sev1alpha1.ReservationSucceeded, sev1alpha1.ReservationFailed}[zzverif.Choice("reservationPhase", 4)]
-			r.Status.NodeName = []string{"", "node-a", "node-b"}[zzverif.Choice("reservationNode", 3)]
-			switch zzverif.Choice("reservationScheduledCond", 3) {
+			r.Status.Phase = []sev1alpha1.ReservationPhase{sev1alpha1.ReservationPending, sev1alpha1.ReservationAvailable, sev1alpha1.ReservationSucceeded, sev1alpha1.ReservationFailed}[e.choice("reservationPhase", 4)]
+			r.Status.NodeName = []string{"", "node-a", "node-b"}[e.choice("reservationNode", 3)]
+			if e.fixNode != "" && r.Status.NodeName != "" {
+				r.Status.NodeName = e.fixNode // a scheduled reservation is never moved
+			}
+			switch e.choice("reservationScheduledCond", 3) {
 			case 1:
 				r.Status.Conditions = append(r.Status.Conditions, sev1alpha1.ReservationCondition{Type: sev1alpha1.ReservationConditionScheduled, Status: sev1alpha1.ConditionStatusTrue, Reason: sev1alpha1.ReasonReservationScheduled})
 			case 2:
 				r.Status.Conditions = append(r.Status.Conditions, sev1alpha1.ReservationCondition{Type: sev1alpha1.ReservationConditionScheduled, Status: sev1alpha1.ConditionStatusFalse, Reason: sev1alpha1.ReasonReservationUnschedulable, Message: "0/3 nodes"})
 			}
-			if r.Status.Phase == sev1alpha1.ReservationFailed && zzverif.Choice("reservationExpired", 2) == 1 {
+			if r.Status.Phase == sev1alpha1.ReservationFailed && e.choice("reservationExpired", 2) == 1 {
 				r.Status.Conditions = append(r.Status.Conditions, sev1alpha1.ReservationCondition{Type: sev1alpha1.ReservationConditionReady, Status: sev1alpha1.ConditionStatusFalse, Reason: sev1alpha1.ReasonReservationExpired})
 			}
 			if r.Status.Phase == sev1alpha1.ReservationSucceeded {
 				// an allocate-once reservation that succeeded is bound: to the replacement of the target or to another pod
-				switch zzverif.Choice("reservationOwner", 2) {
+				switch e.choice("reservationOwner", 2) {
 				case 0:
 					r.Status.CurrentOwners = []corev1.ObjectReference{{Namespace: "ns", Name: "target-new", UID: "uid-new"}}
 				default:
@@ -190,7 +207,7 @@ func (zzvEvictor) Evict(ctx context.Context, job *sev1alpha1.PodMigrationJob, po
 			zzverif.Assert(len(e.res.Status.CurrentOwners) == 0, "eviction is never issued while the reservation is bound to some other pod")
 		}
 	}
-	if zzverif.Choice("evictFails", 2) == 1 {
+	if zzvE.choice("evictFails", 2) == 1 {
 		return errors.New("zzv: eviction refused")
 	}
 	e.evictOK++
@@ -330,6 +347,60 @@ func zzvCond(job *sev1alpha1.PodMigrationJob, t sev1alpha1.PodMigrationJobCondit
 		}
 	}
 	return -1, nil
+}
+
+// ZzvC17History: a bounded history of reconciles of one reservation-first job from its creation, with the
+// environment (pod, reservation, API faults, time) changing arbitrarily between reconciles; each reconcile
+// starts from the job as it was last written successfully. Complements the one-step induction: the
+// representation invariant that ZzvC17Step assumes is asserted here on every stored record, and with no
+// API errors the target pod is evicted at most once over the whole history.
+func ZzvC17History() {
+	zzvE = &zzvEnv{noFaults: zzverif.Param("faults") == 0}
+	e := zzvE
+	job := &sev1alpha1.PodMigrationJob{ObjectMeta: metav1.ObjectMeta{Name: "job", UID: "job-uid"}}
+	job.Spec.PodRef = &corev1.ObjectReference{Namespace: "ns", Name: "target", UID: "uid-1"}
+	job.Spec.Mode = sev1alpha1.PodMigrationJobModeReservationFirst
+	e.stored = job.DeepCopy()
+	r := &Reconciler{Client: &zzvClient{}, args: &deschedulerconfig.MigrationControllerArgs{DefaultJobMode: string(sev1alpha1.PodMigrationJobModeReservationFirst)}, eventRecorder: zzvEvents{},
+		reservationInterpreter: zzvReservations{}, evictorInterpreter: zzvEvictor{}, clock: zzvClock{}}
+	rounds := zzverif.Param("reconciles")
+	evictedOK := 0
+	for k := 0; k < rounds; k++ {
+		e.tag = "r" + string(rune('0'+k)) + "_"
+		// the environment may have changed since the last reconcile
+		e.pod, e.resKnown, e.resMissing, e.res = 0, false, false, nil
+		before := e.evictOK
+		cur := e.stored.DeepCopy()
+		prevPhase := cur.Status.Phase
+		_, psc := zzvCond(cur, sev1alpha1.PodMigrationJobConditionReservationScheduled)
+		prevSched := psc != nil && psc.Status == sev1alpha1.PodMigrationJobConditionStatusTrue
+		r.doMigrate(context.TODO(), cur)
+		evictedOK += e.evictOK - before
+		if e.res != nil && e.res.Status.NodeName != "" && e.resKnown && !e.resMissing {
+			_, c := zzvCond(e.stored, sev1alpha1.PodMigrationJobConditionReservationScheduled)
+			if c != nil && c.Status == sev1alpha1.PodMigrationJobConditionStatusTrue {
+				e.fixNode = e.stored.Status.NodeName
+			}
+		}
+		// the representation invariant of stored records (assumed by ZzvC17Step)
+		_, sc := zzvCond(e.stored, sev1alpha1.PodMigrationJobConditionReservationScheduled)
+		schedTrue := sc != nil && sc.Status == sev1alpha1.PodMigrationJobConditionStatusTrue
+		zzverif.Assert(schedTrue == (e.stored.Status.NodeName != ""), "status.nodeName and the ReservationScheduled condition are written together")
+		if schedTrue {
+			if !prevSched && e.pod != 2 {
+				// (when the pod is gone at that moment there is nothing to compare with; the job is aborted for the missing pod next)
+				zzverif.Assert(e.stored.Status.NodeName != "node-a", "a job records its reservation as scheduled only on a node other than the pod's")
+			}
+			zzverif.Assert(e.stored.Spec.ReservationOptions != nil && e.stored.Spec.ReservationOptions.ReservationRef != nil, "a job recorded as scheduled has a reservation reference")
+		}
+		if zzvTerminal(prevPhase) {
+			zzverif.Assert(e.stored.Status.Phase == prevPhase, "a job that reached a terminal phase never changes phase again")
+		}
+	}
+	if e.noFaults {
+		zzverif.Assert(evictedOK <= 1, "with no API errors a job evicts its pod at most once")
+	}
+	zzverif.Reach("end")
 }
 
 // ZzvC17Twin: must-fail twin (claims the controller never evicts).
